@@ -128,3 +128,14 @@ def _setup(b, case):
     return {'self': m, '_tp': tp}
 c.setup(_setup)
 c.ensures('one-time-of-day-wait', "len(ghost('Clk')) == 1 and ghost('Clk')[0][0] == 'wait_until' and same(ghost('Clk')[0][1], _tp)")
+
+
+# ---- hour and minute come from ONE reading of the clock (two readings may straddle an hour boundary)
+c = contract(C, 'Clock._hour_minute', serves=['C10', 'C11'])
+def _setup(b, case):
+    b.ghost('clock_readings', 0)
+    b.ghost('last_h', 0)
+    b.ghost('last_m', 0)
+    return {}
+c.setup(_setup)
+c.ensures('one-consistent-reading', "ghost('clock_readings') == 1 and result[0] is ghost('last_h') and result[1] is ghost('last_m')")
